@@ -1,5 +1,288 @@
-(* Props/C13.v — PLACEHOLDER created by the check-writer for local testing only; to be replaced by the
-   real theorems of property C13. *)
-Example C13_placeholder : True.
-Proof. exact I. Qed.
-Print Assumptions C13_placeholder.
+(* Props/C13.v — a failed command never creates or clobbers the output file prematurely.
+
+   Model: Model/Cli.v — the command layer of src/cli/src/commands.rs over an explicit world (file system = list of
+   (path, content), environment variables, stdin).  The output given with -o F is commands.rs::OnDemandFile: F is
+   created/truncated by the FIRST write or flush CALL of the library run; so
+       new_fs = fs   iff   the run made no write/flush call          (sink_touched = false)
+   and otherwise F holds exactly what the sink accepted (w_out).  "For every prior state of the output path (absent,
+   present with any content)" is the quantification over the world w.  Every theorem quantifies over the
+   primitives P and over the keyring functions (validators, unlock, lock, decode/encode of public keys, UTF-8 codec):
+   they hold whatever these are.
+
+   What is proved, and how the pieces chain:
+     (1) failure BEFORE the library call (same in/out path, missing input, keyring unspecified / unreadable / not
+         UTF-8 / malformed, unknown key name, missing private key, bad public key, password variable unset, no
+         terminal, unlock failed = wrong key password, invalid key name ...): file system and stdout untouched.
+     (2) the library ran but made no write/flush call: file system untouched.
+     (3) LINK (2) to the library: a decrypt run in which NO AEAD open succeeded — wrong password, wrong recipient
+         key, corrupted header/salt/handshake, wrong mode, unknown magic, short file, corrupted or truncated first
+         chunk — makes no write/flush call (for every input and read script), hence new_fs = fs, exit code 1;
+         an encrypt run whose key exchange is refused (all-zero DH) leaves the io state untouched, hence new_fs = fs.
+     (4) late failure: the path holds exactly what the sink accepted, exit 1; and (chained with the chunk-layer
+         authenticity theorem) that content is a prefix of the honest plaintext under the no-forgery premise.
+     (5) key generate: any failure leaves the file system alone.
+   PARTIAL / not covered: "bad arguments" (usage errors of main.rs) are in Props/C12.v (C12_usage_error_leaves_fs);
+   real file-system failures (permissions, full disk, File::create errors) are outside the model's world;
+   that a WRONG password produces no successful open is the AEAD's security, a premise here ("no successful open in
+   the run's log"), exercised concretely by the harness.  Exit code for key decrypt in (3) is "not 0" unless the
+   library returned an error value (then 1): a panic inside the handshake code would be 101. *)
+From Kestrel Require Import Bytes Outcome IO Prims.
+From Kestrel.gen Require Import Extracted.
+From Kestrel.Model Require Import AeadWrap Chunks Noise Files EventPreds KeyringText Cli.
+From Kestrel.Proofs Require Import ChunksAuth CliFacts Combine2Fail Combine2Cli.
+Local Open Scope N_scope.
+
+(* (1) every early failure, all five writing commands *)
+Theorem C13_failed_command_leaves_fs :
+  forall (P : prims) (pk_ok sk_ok : text -> bool) (unlock : text -> bytes -> outcome kerr bytes)
+         (lock : bytes -> bytes -> bytes -> text) (decode_pk : text -> outcome kerr bytes) (encode_pk : bytes -> text)
+         (utf8_decode : bytes -> option text) (utf8_encode : text -> bytes),
+  (forall w o fpk fe, early_failure (status (cmd_encrypt P pk_ok sk_ok unlock decode_pk utf8_decode w o fpk fe)) = true ->
+     new_fs (cmd_encrypt P pk_ok sk_ok unlock decode_pk utf8_decode w o fpk fe) = fs w) /\
+  (forall w o, early_failure (status (cmd_decrypt P pk_ok sk_ok unlock decode_pk encode_pk utf8_decode w o)) = true ->
+     new_fs (cmd_decrypt P pk_ok sk_ok unlock decode_pk encode_pk utf8_decode w o) = fs w) /\
+  (forall w o salt, early_failure (status (cmd_pass_encrypt P w o salt)) = true ->
+     new_fs (cmd_pass_encrypt P w o salt) = fs w) /\
+  (forall w o, early_failure (status (cmd_pass_decrypt P w o)) = true -> new_fs (cmd_pass_decrypt P w o) = fs w) /\
+  (forall w o sk salt, early_failure (status (cmd_gen_key P lock encode_pk utf8_decode utf8_encode w o sk salt)) = true ->
+     new_fs (cmd_gen_key P lock encode_pk utf8_decode utf8_encode w o sk salt) = fs w).
+Proof.
+  intros P pk_ok sk_ok unlock lock decode_pk encode_pk utf8_decode utf8_encode.
+  exact (failed_command_leaves_fs P pk_ok sk_ok unlock lock decode_pk encode_pk (fun _ => true) utf8_decode utf8_encode).
+Qed.
+Print Assumptions C13_failed_command_leaves_fs.
+
+(* (1') ANY status produced before the library call (this includes a panic of the unlock / decode functions):
+   the result is fail_result w st = (exit code of st, fs w, empty stdout, st) *)
+Theorem C13_plan_failure_leaves_fs :
+  forall (P : prims) (pk_ok sk_ok : text -> bool) (unlock : text -> bytes -> outcome kerr bytes)
+         (lock : bytes -> bytes -> bytes -> text) (decode_pk : text -> outcome kerr bytes) (encode_pk : bytes -> text)
+         (utf8_decode : bytes -> option text) (utf8_encode : text -> bytes),
+  (forall w o fpk fe st, encrypt_plan pk_ok sk_ok unlock decode_pk utf8_decode w o = inl st ->
+     cmd_encrypt P pk_ok sk_ok unlock decode_pk utf8_decode w o fpk fe = fail_result w st) /\
+  (forall w o st, decrypt_plan pk_ok sk_ok unlock decode_pk utf8_decode w o = inl st ->
+     cmd_decrypt P pk_ok sk_ok unlock decode_pk encode_pk utf8_decode w o = fail_result w st) /\
+  (forall w o salt st, pass_encrypt_plan w o salt = inl st -> cmd_pass_encrypt P w o salt = fail_result w st) /\
+  (forall w o st, pass_decrypt_plan w o = inl st -> cmd_pass_decrypt P w o = fail_result w st) /\
+  (forall w o sk salt st, gen_plan P lock encode_pk utf8_decode w o sk salt = inl st ->
+     cmd_gen_key P lock encode_pk utf8_decode utf8_encode w o sk salt = fail_result w st).
+Proof. exact plan_failure_leaves_fs. Qed.
+Print Assumptions C13_plan_failure_leaves_fs.
+
+(* (2) the library ran (run_* = the library function on the script-free state io0 input) without a write/flush call *)
+Theorem C13_no_write_leaves_fs :
+  forall (P : prims) (pk_ok sk_ok : text -> bool) (unlock : text -> bytes -> outcome kerr bytes)
+         (decode_pk : text -> outcome kerr bytes) (encode_pk : bytes -> text) (utf8_decode : bytes -> option text),
+  (forall w o fpk fe j, encrypt_plan pk_ok sk_ok unlock decode_pk utf8_decode w o = inr j ->
+     sink_touched (snd (run_enc P fpk fe j)) = false ->
+     new_fs (cmd_encrypt P pk_ok sk_ok unlock decode_pk utf8_decode w o fpk fe) = fs w) /\
+  (forall w o j, decrypt_plan pk_ok sk_ok unlock decode_pk utf8_decode w o = inr j ->
+     sink_touched (snd (run_dec P j)) = false ->
+     new_fs (cmd_decrypt P pk_ok sk_ok unlock decode_pk encode_pk utf8_decode w o) = fs w) /\
+  (forall w o salt j, pass_encrypt_plan w o salt = inr j ->
+     sink_touched (snd (run_penc P salt j)) = false -> new_fs (cmd_pass_encrypt P w o salt) = fs w) /\
+  (forall w o j, pass_decrypt_plan w o = inr j ->
+     sink_touched (snd (run_pdec P j)) = false -> new_fs (cmd_pass_decrypt P w o) = fs w).
+Proof. exact all_no_write_leaves_fs. Qed.
+Print Assumptions C13_no_write_leaves_fs.
+
+(* (3a) LIBRARY, password decrypt, EVERY io state s (any input, any read/write script): if none of the events d the
+   run added to the log is a successful AEAD open (under any key), then the sink received nothing, no write/flush
+   call was made (no_out_ev), and the result is one of the listed errors *)
+Theorem C13_lib_pass_decrypt_no_open_no_output :
+  forall (P : prims), hash_ok P ->
+  forall (pw : bytes) (s : io) (res : outcome derr unit) (s' : io) (d : list event),
+  pass_decrypt P pw s = (res, s') -> log s' = d ++ log s ->
+  (forall k m ad ct pt, ~ In (EvOpen k m ad ct (Some pt)) d) ->
+  w_out (wtr s') = w_out (wtr s) /\ Forall no_out_ev d /\
+  (res = Err DChaPolyDecrypt \/ res = Err DChunkLen \/ (exists e, res = Err (DIORead e)) \/
+   res = Err DOtherFormat \/ res = Err DOtherWrongMode).
+Proof. exact pass_decrypt_no_open_no_output. Qed.
+Print Assumptions C13_lib_pass_decrypt_no_open_no_output.
+
+(* (3b) LIBRARY, key decrypt: the same (a handshake that does not verify is DOtherNoise) *)
+Theorem C13_lib_key_decrypt_no_open_no_output :
+  forall (P : prims), hash_ok P ->
+  forall (r rpk : bytes) (s : io) (res : outcome derr bytes) (s' : io) (d : list event),
+  key_decrypt P r rpk s = (res, s') -> log s' = d ++ log s ->
+  (forall k m ad ct pt, ~ In (EvOpen k m ad ct (Some pt)) d) ->
+  w_out (wtr s') = w_out (wtr s) /\ Forall no_out_ev d /\
+  (res = Err DChaPolyDecrypt \/ res = Err DChunkLen \/ (exists e, res = Err (DIORead e)) \/
+   res = Err DOtherFormat \/ res = Err DOtherWrongMode \/ (exists ne, res = Err (DOtherNoise ne)) \/
+   (exists w, res = Panic w) \/ res = OutOfFuel).
+Proof. exact key_decrypt_no_open_no_output. Qed.
+Print Assumptions C13_lib_key_decrypt_no_open_no_output.
+
+(* (3c) CLI, password decrypt: no successful open in the library run => nothing created, nothing changed, exit 1 *)
+Theorem C13_pass_decrypt_wrong_password_leaves_fs :
+  forall (P : prims), hash_ok P ->
+  forall (w : world) (o : pw_opts) (j : pw_job),
+  pass_decrypt_plan w o = inr j ->
+  (forall k m ad ct pt, ~ In (EvOpen k m ad ct (Some pt)) (log (snd (run_pdec P j)))) ->
+  sink_touched (snd (run_pdec P j)) = false /\
+  new_fs (cmd_pass_decrypt P w o) = fs w /\
+  stdout (cmd_pass_decrypt P w o) = [] /\
+  exit_code (cmd_pass_decrypt P w o) = 1 /\
+  (status (cmd_pass_decrypt P w o) = SPassDecryptAuth \/ exists e, status (cmd_pass_decrypt P w o) = SDecryptFailed e).
+Proof. exact pass_decrypt_cli_no_open_leaves_fs. Qed.
+Print Assumptions C13_pass_decrypt_wrong_password_leaves_fs.
+
+(* (3d) CLI, key decrypt *)
+Theorem C13_decrypt_first_chunk_failure_leaves_fs :
+  forall (P : prims) (pk_ok sk_ok : text -> bool) (unlock : text -> bytes -> outcome kerr bytes)
+         (decode_pk : text -> outcome kerr bytes) (encode_pk : bytes -> text) (utf8_decode : bytes -> option text),
+  hash_ok P ->
+  forall (w : world) (o : dec_opts) (j : dec_job),
+  decrypt_plan pk_ok sk_ok unlock decode_pk utf8_decode w o = inr j ->
+  (forall k m ad ct pt, ~ In (EvOpen k m ad ct (Some pt)) (log (snd (run_dec P j)))) ->
+  sink_touched (snd (run_dec P j)) = false /\
+  new_fs (cmd_decrypt P pk_ok sk_ok unlock decode_pk encode_pk utf8_decode w o) = fs w /\
+  stdout (cmd_decrypt P pk_ok sk_ok unlock decode_pk encode_pk utf8_decode w o) = [] /\
+  is_success (status (cmd_decrypt P pk_ok sk_ok unlock decode_pk encode_pk utf8_decode w o)) = false /\
+  exit_code (cmd_decrypt P pk_ok sk_ok unlock decode_pk encode_pk utf8_decode w o) <> 0 /\
+  (forall e, fst (run_dec P j) = Err e ->
+     exit_code (cmd_decrypt P pk_ok sk_ok unlock decode_pk encode_pk utf8_decode w o) = 1).
+Proof. exact decrypt_cli_no_open_leaves_fs. Qed.
+Print Assumptions C13_decrypt_first_chunk_failure_leaves_fs.
+
+(* (3e) CLI, encrypt: the handshake refuses the key exchange (noise_encrypt returns an error) *)
+Theorem C13_encrypt_refused_exchange_leaves_fs :
+  forall (P : prims) (pk_ok sk_ok : text -> bool) (unlock : text -> bytes -> outcome kerr bytes)
+         (decode_pk : text -> outcome kerr bytes) (utf8_decode : bytes -> option text)
+         (w : world) (o : enc_opts) (j : enc_job) (fresh_pk fresh_e : bytes) (ne : noise_err),
+  encrypt_plan pk_ok sk_ok unlock decode_pk utf8_decode w o = inr j -> length fresh_pk = 32%nat ->
+  noise_encrypt P fresh_e (ej_s j) (ej_spk j) (ej_r j) None None x_prologue fresh_pk = Err ne ->
+  new_fs (cmd_encrypt P pk_ok sk_ok unlock decode_pk utf8_decode w o fresh_pk fresh_e) = fs w /\
+  stdout (cmd_encrypt P pk_ok sk_ok unlock decode_pk utf8_decode w o fresh_pk fresh_e) = [] /\
+  exit_code (cmd_encrypt P pk_ok sk_ok unlock decode_pk utf8_decode w o fresh_pk fresh_e) = 1 /\
+  status (cmd_encrypt P pk_ok sk_ok unlock decode_pk utf8_decode w o fresh_pk fresh_e) = SEncryptFailed EOther.
+Proof. exact encrypt_cli_refused_exchange_leaves_fs. Qed.
+Print Assumptions C13_encrypt_refused_exchange_leaves_fs.
+
+(* (3f) the concrete trigger: an all-zero X25519 result in either DH of the handshake (low-order recipient key) *)
+Theorem C13_encrypt_dh_zero_leaves_fs :
+  forall (P : prims) (pk_ok sk_ok : text -> bool) (unlock : text -> bytes -> outcome kerr bytes)
+         (decode_pk : text -> outcome kerr bytes) (utf8_decode : bytes -> option text)
+         (w : world) (o : enc_opts) (j : enc_job) (fresh_pk fresh_e : bytes),
+  hash_ok P ->
+  encrypt_plan pk_ok sk_ok unlock decode_pk utf8_decode w o = inr j ->
+  length fresh_pk = 32%nat -> length fresh_e = 32%nat -> length (ej_s j) = 32%nat -> length (ej_r j) = 32%nat ->
+  all_zero (p_dh P fresh_e (ej_r j)) = true \/ all_zero (p_dh P (ej_s j) (ej_r j)) = true ->
+  new_fs (cmd_encrypt P pk_ok sk_ok unlock decode_pk utf8_decode w o fresh_pk fresh_e) = fs w /\
+  stdout (cmd_encrypt P pk_ok sk_ok unlock decode_pk utf8_decode w o fresh_pk fresh_e) = [] /\
+  exit_code (cmd_encrypt P pk_ok sk_ok unlock decode_pk utf8_decode w o fresh_pk fresh_e) = 1 /\
+  status (cmd_encrypt P pk_ok sk_ok unlock decode_pk utf8_decode w o fresh_pk fresh_e) = SEncryptFailed EOther.
+Proof. exact encrypt_cli_dh_zero_leaves_fs. Qed.
+Print Assumptions C13_encrypt_dh_zero_leaves_fs.
+
+(* (4) a write/flush call was made: F holds exactly what the sink accepted, no other path changed, and a library
+   error gives exit code 1 (decrypt commands; the encrypt commands are the same statement in CliFacts) *)
+Theorem C13_decrypt_late_failure_keeps_prefix :
+  forall (P : prims) (pk_ok sk_ok : text -> bool) (unlock : text -> bytes -> outcome kerr bytes)
+         (decode_pk : text -> outcome kerr bytes) (encode_pk : bytes -> text) (utf8_decode : bytes -> option text)
+         (w : world) (o : dec_opts) (j : dec_job) (F : text),
+  decrypt_plan pk_ok sk_ok unlock decode_pk utf8_decode w o = inr j -> do_outfile o = Some F ->
+  sink_touched (snd (run_dec P j)) = true ->
+  fs_get (new_fs (cmd_decrypt P pk_ok sk_ok unlock decode_pk encode_pk utf8_decode w o)) F
+    = Some (w_out (wtr (snd (run_dec P j)))) /\
+  (forall q, q <> F -> fs_get (new_fs (cmd_decrypt P pk_ok sk_ok unlock decode_pk encode_pk utf8_decode w o)) q
+                       = fs_get (fs w) q) /\
+  (forall e, fst (run_dec P j) = Err e ->
+     exit_code (cmd_decrypt P pk_ok sk_ok unlock decode_pk encode_pk utf8_decode w o) = 1 /\
+     status (cmd_decrypt P pk_ok sk_ok unlock decode_pk encode_pk utf8_decode w o) = fin_dec encode_pk (dj_keys j) (Err e)).
+Proof. exact decrypt_late_failure_keeps_prefix. Qed.
+Print Assumptions C13_decrypt_late_failure_keeps_prefix.
+
+Theorem C13_pass_decrypt_late_failure_keeps_prefix :
+  forall (P : prims) (w : world) (o : pw_opts) (j : pw_job) (F : text),
+  pass_decrypt_plan w o = inr j -> po_outfile o = Some F -> sink_touched (snd (run_pdec P j)) = true ->
+  fs_get (new_fs (cmd_pass_decrypt P w o)) F = Some (w_out (wtr (snd (run_pdec P j)))) /\
+  (forall q, q <> F -> fs_get (new_fs (cmd_pass_decrypt P w o)) q = fs_get (fs w) q) /\
+  (forall e, fst (run_pdec P j) = Err e ->
+     exit_code (cmd_pass_decrypt P w o) = 1 /\ status (cmd_pass_decrypt P w o) = fin_pdec (Err e)).
+Proof. exact pass_decrypt_late_failure_keeps_prefix. Qed.
+Print Assumptions C13_pass_decrypt_late_failure_keeps_prefix.
+
+Theorem C13_encrypt_late_failure_keeps_prefix :
+  forall (P : prims) (pk_ok sk_ok : text -> bool) (unlock : text -> bytes -> outcome kerr bytes)
+         (decode_pk : text -> outcome kerr bytes) (utf8_decode : bytes -> option text)
+         (w : world) (o : enc_opts) (fpk fe : bytes) (j : enc_job) (F : text),
+  encrypt_plan pk_ok sk_ok unlock decode_pk utf8_decode w o = inr j -> eo_outfile o = Some F ->
+  sink_touched (snd (run_enc P fpk fe j)) = true ->
+  fs_get (new_fs (cmd_encrypt P pk_ok sk_ok unlock decode_pk utf8_decode w o fpk fe)) F
+    = Some (w_out (wtr (snd (run_enc P fpk fe j)))) /\
+  (forall q, q <> F -> fs_get (new_fs (cmd_encrypt P pk_ok sk_ok unlock decode_pk utf8_decode w o fpk fe)) q
+                       = fs_get (fs w) q) /\
+  (forall e, fst (run_enc P fpk fe j) = Err e ->
+     exit_code (cmd_encrypt P pk_ok sk_ok unlock decode_pk utf8_decode w o fpk fe) = 1 /\
+     status (cmd_encrypt P pk_ok sk_ok unlock decode_pk utf8_decode w o fpk fe) = SEncryptFailed e).
+Proof. exact encrypt_late_failure_keeps_prefix. Qed.
+Print Assumptions C13_encrypt_late_failure_keeps_prefix.
+
+Theorem C13_pass_encrypt_late_failure_keeps_prefix :
+  forall (P : prims) (w : world) (o : pw_opts) (salt : bytes) (j : pw_job) (F : text),
+  pass_encrypt_plan w o salt = inr j -> po_outfile o = Some F -> sink_touched (snd (run_penc P salt j)) = true ->
+  fs_get (new_fs (cmd_pass_encrypt P w o salt)) F = Some (w_out (wtr (snd (run_penc P salt j)))) /\
+  (forall q, q <> F -> fs_get (new_fs (cmd_pass_encrypt P w o salt)) q = fs_get (fs w) q) /\
+  (forall e, fst (run_penc P salt j) = Err e ->
+     exit_code (cmd_pass_encrypt P w o salt) = 1 /\ status (cmd_pass_encrypt P w o salt) = SEncryptFailed e).
+Proof. exact pass_encrypt_late_failure_keeps_prefix. Qed.
+Print Assumptions C13_pass_encrypt_late_failure_keeps_prefix.
+
+(* (4') chained with the authenticity theorem (C03): with -o F, for ANY outcome of password decrypt, either the file
+   system is unchanged or the input has a complete header (magic, 32-byte salt) and, for every honest chunk list
+   such that no successful open of the run is a forgery under the derived key, F holds a PREFIX of the honest
+   plaintext — all of it if the command succeeded; no other path changed; a library error gives exit 1 *)
+Theorem C13_pass_decrypt_output_is_authenticated_prefix :
+  forall (P : prims), aead_ok P -> hash_ok P ->
+  forall (w : world) (o : pw_opts) (j : pw_job) (F : text),
+  pass_decrypt_plan w o = inr j -> po_outfile o = Some F ->
+  new_fs (cmd_pass_decrypt P w o) = fs w
+  \/
+  (exists salt rest, length salt = 32%nat /\ pj_input j = x_pass_file_magic ++ salt ++ rest /\
+     (forall q, q <> F -> fs_get (new_fs (cmd_pass_decrypt P w o)) q = fs_get (fs w) q) /\
+     (forall e, fst (run_pdec P j) = Err e -> exit_code (cmd_pass_decrypt P w o) = 1) /\
+     forall chunks,
+       no_forgery P (kdf P (pj_pw j) salt) x_pass_file_magic chunks (log (snd (run_pdec P j))) ->
+       exists written tl,
+         fs_get (new_fs (cmd_pass_decrypt P w o)) F = Some written /\ written ++ tl = concat chunks /\
+         (is_success (status (cmd_pass_decrypt P w o)) = true -> written = concat chunks)).
+Proof. exact pass_decrypt_cli_authenticated_prefix. Qed.
+Print Assumptions C13_pass_decrypt_output_is_authenticated_prefix.
+
+Theorem C13_decrypt_output_is_authenticated_prefix :
+  forall (P : prims) (pk_ok sk_ok : text -> bool) (unlock : text -> bytes -> outcome kerr bytes)
+         (decode_pk : text -> outcome kerr bytes) (encode_pk : bytes -> text) (utf8_decode : bytes -> option text),
+  aead_ok P -> hash_ok P ->
+  forall (w : world) (o : dec_opts) (j : dec_job) (F : text),
+  decrypt_plan pk_ok sk_ok unlock decode_pk utf8_decode w o = inr j -> do_outfile o = Some F ->
+  new_fs (cmd_decrypt P pk_ok sk_ok unlock decode_pk encode_pk utf8_decode w o) = fs w
+  \/
+  (exists msg rest payload spk hh, length msg = 128%nat /\ dj_input j = x_prologue ++ msg ++ rest /\
+     noise_decrypt P (dj_r j) (dj_rpk j) x_prologue msg = Ok (payload, spk, hh) /\
+     (forall q, q <> F -> fs_get (new_fs (cmd_decrypt P pk_ok sk_ok unlock decode_pk encode_pk utf8_decode w o)) q
+                          = fs_get (fs w) q) /\
+     (forall e, fst (run_dec P j) = Err e ->
+        exit_code (cmd_decrypt P pk_ok sk_ok unlock decode_pk encode_pk utf8_decode w o) = 1) /\
+     forall chunks,
+       no_forgery P (file_key P payload hh) [] chunks (log (snd (run_dec P j))) ->
+       exists written tl,
+         fs_get (new_fs (cmd_decrypt P pk_ok sk_ok unlock decode_pk encode_pk utf8_decode w o)) F = Some written /\
+         written ++ tl = concat chunks /\
+         (is_success (status (cmd_decrypt P pk_ok sk_ok unlock decode_pk encode_pk utf8_decode w o)) = true ->
+            written = concat chunks /\
+            status (cmd_decrypt P pk_ok sk_ok unlock decode_pk encode_pk utf8_decode w o)
+              = sender_status encode_pk (dj_keys j) spk)).
+Proof. exact decrypt_cli_authenticated_prefix. Qed.
+Print Assumptions C13_decrypt_output_is_authenticated_prefix.
+
+(* (5) key generate: ANY failure (there is no late failure) leaves the file system and stdout alone *)
+Theorem C13_gen_key_failed_leaves_fs :
+  forall (P : prims) (lock : bytes -> bytes -> bytes -> text) (encode_pk : bytes -> text)
+         (utf8_decode : bytes -> option text) (utf8_encode : text -> bytes)
+         (w : world) (o : gen_opts) (sk salt : bytes),
+  is_success (status (cmd_gen_key P lock encode_pk utf8_decode utf8_encode w o sk salt)) = false ->
+  new_fs (cmd_gen_key P lock encode_pk utf8_decode utf8_encode w o sk salt) = fs w /\
+  stdout (cmd_gen_key P lock encode_pk utf8_decode utf8_encode w o sk salt) = [].
+Proof. exact gen_key_failed_leaves_fs. Qed.
+Print Assumptions C13_gen_key_failed_leaves_fs.
